@@ -81,6 +81,7 @@ def run(prog, tier, extra=None):
     R4 = res.rule("C01.dup-scan", "the in-block double-spend scan checks and records each spent key individually", floor=1)
     R5 = res.rule("C01.scan-exemptions", "only zero-amount and Bound inputs are exempt from the in-block double-spend test", floor=0)
     R8 = res.rule("C01.ledger-check-window", "the ledger check is switched on by the presence of the block exactly one configured genesis period behind the tip (or block 1)", floor=2)
+    R9 = res.rule("C01.stake-input-lookup", "Blockchain::is_slip_unlocked (the only ledger test of a staking transaction's inputs inside Transaction::validate) answers true only after finding the key in the UTXO set", floor=1)
     R7 = res.rule("C01.utxo-lookup", "validate_against_utxoset skips the per-input ledger lookup only for the Fee transaction", floor=1)
     R6 = res.rule("C01.tx-dup", "Transaction::validate accepts a non-privileged transaction only after a test that can tell a repeated input key", floor=1)
     R3 = res.rule("C01.signature", "Transaction::validate accept paths pass verify_signature(hash_for_signature, signature, from[0].public_key)", floor=1)
@@ -512,6 +513,44 @@ def run(prog, tier, extra=None):
                 res.sample({"rule": R8, "caller": consumer_name(cb.path), "site": cb.loc(bb), "argument": "the configured genesis_period"})
             else:
                 res.add(Finding(R8, "C01.ledger-check-window|argument|%s" % cb.path, "%s asks has_total_supply_loaded about `%s`, not the configured genesis period" % (consumer_name(cb.path), show(e)[:60]), cb.loc(bb)))
+
+    # R9: the BlockStake branch of Transaction::validate relies on Blockchain::is_slip_unlocked for "exists and is unspent";
+    # whatever else that function decides (lock period), it must not say yes before it has looked the key up.
+    isu = prog.body(CORE + "consensus::blockchain::Blockchain::is_slip_unlocked")
+    if isu is None:
+        raise LookupError("Blockchain::is_slip_unlocked not found")
+    ch9 = Chaser(isu)
+    lookups = {bb for bb, t in isu.calls() if (call_name(t) or "").rsplit("::", 1)[-1] in ("get", "contains_key", "get_key_value") and t["args"]
+               and has_field(ch9.origin(t["args"][0]), "blockchain::Blockchain", "utxoset")}
+    res.instance(R9)
+    if not lookups:
+        res.add(Finding(R9, "C01.stake-input-lookup|no-lookup", "Blockchain::is_slip_unlocked no longer looks the key up in the UTXO set", isu.loc(0)))
+    else:
+        f9 = None if 0 in lookups else Explorer(isu).explore(0, blocked=lookups, accept=gate.make_accept(isu, return_true=True))
+        if f9:
+            kind, path = sorted(f9.items())[0]
+            res.add(Finding(R9, "C01.stake-input-lookup|bypass", "Blockchain::is_slip_unlocked can answer true without having looked the key up in the UTXO set: a staking transaction "
+                            "can name an input that was never created or is already spent", isu.loc(path[-1]), {"path": describe_path(isu, path)}))
+        else:
+            # the lookup's negative results must lead to false
+            absent = set()
+            for bb, blk in enumerate(isu.blocks):
+                t = blk["t"]
+                if t["k"] == "switch":
+                    e = ch9.origin(t["discr"])
+                    if e[0] == "discr" and has_field(e[1], "blockchain::Blockchain", "utxoset"):
+                        absent |= gate.variant_edges(isu, bb, 0)
+            isn9 = gate.bool_switch_edges(isu, ch9, lambda e: e[0] == "call" and e[1].rsplit("::", 1)[-1] == "is_none" and has_field(e, "blockchain::Blockchain", "utxoset"))
+            absent |= isn9["true"]
+            bad9 = None
+            for (src, tgt) in sorted(absent):
+                g9 = Explorer(isu).explore(tgt, accept=gate.make_accept(isu, return_true=True))
+                if g9:
+                    bad9 = src
+            if bad9 is not None:
+                res.add(Finding(R9, "C01.stake-input-lookup|absent-accepted", "Blockchain::is_slip_unlocked can answer true for a key that is not in the UTXO set", isu.loc(bad9)))
+            else:
+                res.sample({"rule": R9, "lookups": [isu.loc(x) for x in sorted(lookups)], "absent_edges": len(absent), "verdict": "true only after the lookup; an absent key leads to false"})
 
     # the ledger C01's verdicts are evaluated against is the one wind/unwind maintain, and the only un-signed spends the
     # validator admits are the rebroadcasts it re-derives: both mechanisms are decided by the C03 / C13 rules, cross-listed here
